@@ -54,14 +54,14 @@ def srm32Out {ε : Type} (ea eb : ε) (tag1 tag2 : Ty) (a b : Int) : Except ε N
   if ¬ Ty.fits .i32 a then .error ea
   else if ¬ Ty.fits .i32 b then .error eb
   else if a = b ∧ a = -2147483648 then .ok ⟨tag1, 2147483647⟩
-  else .ok ⟨tag2, wrap .i32 (roundingMulBody (a * b) 31)⟩
+  else .ok ⟨tag2, W32 (roundingMulBody (a * b) 31)⟩
 
 theorem srm32_spec (ta tb : Ty) (a b : Int) (hta : T3 ta) (htb : T3 tb) (ha : ta.fits a) (hb : tb.fits b) :
     saturating_rounding_mul32 ⟨ta, a⟩ ⟨tb, b⟩ =
       if ¬ Ty.fits .i32 a then .error (castErr ta)
       else if ¬ Ty.fits .i32 b then .error (castErr tb)
       else if a = b ∧ a = -2147483648 then .ok ⟨.i32, 2147483647⟩
-      else .ok ⟨.i64, wrap .i32 (roundingMulBody (a * b) 31)⟩ := by
+      else .ok ⟨.i64, W32 (roundingMulBody (a * b) 31)⟩ := by
   by_cases h1 : Ty.fits .i32 a
   · by_cases h2 : Ty.fits .i32 b
     · have hp := prod32_i64 a b h1 h2
@@ -72,7 +72,7 @@ theorem srm32_spec (ta tb : Ty) (a b : Int) (hta : T3 ta) (htb : T3 tb) (ha : ta
         · simp only [Ty.fits] at h1 h2
           py_exec [saturating_rounding_mul32]
           py_finish
-      · rw [if_neg hne, wrap_id _ _ (rmb31_fits a b h1 h2 hne)]
+      · rw [if_neg hne, W32_id _ (rmb31_fits a b h1 h2 hne)]
         rcases hta with rfl | rfl | rfl <;> rcases htb with rfl | rfl | rfl <;>
         · simp only [Ty.fits] at h1 h2
           py_exec [saturating_rounding_mul32, roundingMulBody]
@@ -99,7 +99,7 @@ theorem srm32_rw (ta tb : Ty) (a b : Int) (hta : T3 ta) (htb : T3 tb)
       if ¬ Ty.fits .i32 a then .error (castErr ta)
       else if ¬ Ty.fits .i32 b then .error (castErr tb)
       else if a = b ∧ a = -2147483648 then .ok ⟨.i32, 2147483647⟩
-      else .ok ⟨.i64, wrap .i32 (roundingMulBody (a * b) 31)⟩ := by
+      else .ok ⟨.i64, W32 (roundingMulBody (a * b) 31)⟩ := by
   apply srm32_spec _ _ _ _ hta htb
   · rcases ha with rfl | h
     · trivial
@@ -107,6 +107,15 @@ theorem srm32_rw (ta tb : Ty) (a b : Int) (hta : T3 ta) (htb : T3 tb)
   · rcases hb with rfl | h
     · trivial
     · exact h
+
+/-- the same when one operand is known not to be `INT_MIN` (a literal multiplier, ...): no case split -/
+theorem srm32_rw_ne (ta tb : Ty) (a b : Int) (hta : T3 ta) (htb : T3 tb)
+    (ha : ta = .py ∨ ta.fits a) (hb : tb = .py ∨ tb.fits b) (hne : a ≠ -2147483648 ∨ b ≠ -2147483648) :
+    saturating_rounding_mul32 ⟨ta, a⟩ ⟨tb, b⟩ =
+      if ¬ Ty.fits .i32 a then .error (castErr ta)
+      else if ¬ Ty.fits .i32 b then .error (castErr tb)
+      else .ok ⟨.i64, W32 (roundingMulBody (a * b) 31)⟩ := by
+  rw [srm32_rw ta tb a b hta htb ha hb, if_neg (by omega : ¬ (a = b ∧ a = -2147483648))]
 
 /-! ## `rounding_divide_by_pot` -/
 
@@ -151,14 +160,14 @@ theorem rdbp_spec (tx : Ty) (x e : Int) (htx : T3 tx) (hx : tx.fits x) (he : tx 
       if ¬ Ty.fits .i32 x then .error (castErr tx)
       else if ¬ Ty.fits .i32 e then .error .overflow
       else if e < 0 then .error .value
-      else .ok ⟨tx, wrap .i32 (rdbpVal x e)⟩ := by
+      else .ok ⟨tx, W32 (rdbpVal x e)⟩ := by
   have hp : (0:Int) < 2 ^ e.toNat := Int.pow_pos (by decide)
   have hm := Int.emod_nonneg x (Int.ne_of_gt hp)
   have hm2 := Int.emod_lt_of_pos x hp
   by_cases h1 : Ty.fits .i32 x
   · have hv := rdbpVal_fits x e h1
     have hb := ediv_two_pow_bounds x e.toNat h1
-    rw [if_neg (not_not.2 h1), wrap_id _ _ hv]
+    rw [if_neg (not_not.2 h1), W32_id _ hv]
     by_cases h2 : Ty.fits .i32 e
     · rw [if_neg (not_not.2 h2)]
       by_cases h3 : e < 0
@@ -201,7 +210,7 @@ theorem rdbp_rw (tx : Ty) (x e : Int) (htx : T3 tx) (hx : tx = .py ∨ tx.fits x
       if ¬ Ty.fits .i32 x then .error (castErr tx)
       else if ¬ Ty.fits .i32 e then .error .overflow
       else if e < 0 then .error .value
-      else .ok ⟨tx, wrap .i32 (rdbpVal x e)⟩ := by
+      else .ok ⟨tx, W32 (rdbpVal x e)⟩ := by
   apply rdbp_spec _ _ _ htx _ he
   rcases hx with rfl | h
   · trivial
@@ -217,30 +226,215 @@ theorem msrm32_spec (a b : Int) :
       if ¬ Ty.fits .i32 a then .error .assert_
       else if ¬ Ty.fits .i32 b then .error .assert_
       else if a = b ∧ a = -2147483648 then .ok 2147483647
-      else .ok (wrap .i32 (roundingMulBody (a * b) 31)) := by
+      else .ok (W32 (roundingMulBody (a * b) 31)) := by
   by_cases h1 : Ty.fits .i32 a
   · by_cases h2 : Ty.fits .i32 b
     · by_cases hne : a = b ∧ a = -2147483648
-      · py_exec [saturatingRoundingMul32, chk32, fits32_iff, i32min, i32max, h1, h2, hne]
-      · rw [if_neg (not_not.2 h1), if_neg (not_not.2 h2), if_neg hne, wrap_id _ _ (rmb31_fits a b h1 h2 hne)]
+      · obtain ⟨rfl, rfl⟩ := hne
+        py_exec [saturatingRoundingMul32, chk32, fits32_iff, i32min, i32max, h1]
+      · rw [if_neg (not_not.2 h1), if_neg (not_not.2 h2), if_neg hne, W32_id _ (rmb31_fits a b h1 h2 hne)]
         py_exec [saturatingRoundingMul32, chk32, fits32_iff, i32min, i32max, h1, h2, hne]
     · py_exec [saturatingRoundingMul32, chk32, fits32_iff, i32min, i32max, h1, h2]
   · py_exec [saturatingRoundingMul32, chk32, fits32_iff, i32min, i32max, h1]
+
+theorem msrm32_spec_ne (a b : Int) (hne : a ≠ -2147483648 ∨ b ≠ -2147483648) :
+    saturatingRoundingMul32 a b =
+      if ¬ Ty.fits .i32 a then .error .assert_
+      else if ¬ Ty.fits .i32 b then .error .assert_
+      else .ok (W32 (roundingMulBody (a * b) 31)) := by
+  rw [msrm32_spec, if_neg (by omega : ¬ (a = b ∧ a = -2147483648))]
 
 theorem mrdbp_spec (x e : Int) :
     roundingDivideByPot x e =
       if ¬ Ty.fits .i32 x then .error .assert_
       else if ¬ Ty.fits .i32 e then .error .assert_
       else if e < 0 then .error .value
-      else .ok (wrap .i32 (rdbpVal x e)) := by
+      else .ok (W32 (rdbpVal x e)) := by
   by_cases h1 : Ty.fits .i32 x
   · by_cases h2 : Ty.fits .i32 e
     · by_cases h3 : e < 0
       · py_exec [roundingDivideByPot, chk32, pow2, fits32_iff, h1, h2, h3]
-      · rw [if_neg (not_not.2 h1), if_neg (not_not.2 h2), if_neg h3, wrap_id _ _ (rdbpVal_fits x e h1)]
+      · rw [if_neg (not_not.2 h1), if_neg (not_not.2 h2), if_neg h3, W32_id _ (rdbpVal_fits x e h1)]
         py_exec [roundingDivideByPot, chk32, pow2, fits32_iff, rdbpVal, h1, h2, h3]
         py_finish
     · py_exec [roundingDivideByPot, chk32, fits32_iff, h1, h2]
   · py_exec [roundingDivideByPot, chk32, fits32_iff, h1]
+
+/-! ## `exp_on_interval_between_negative_one_quarter_and_0_excl` -/
+
+set_option maxHeartbeats 1000000 in
+theorem expint_in (ta : Ty) (a : Int) (hta : ta = .py ∨ ta = .i32) (h1 : -536870912 ≤ a) (h2 : a < 0) :
+    SimT errRel .i32 (exp_on_interval_between_negative_one_quarter_and_0_excl ⟨ta, a⟩)
+      (expOnIntervalBetweenNegativeOneQuarterAnd0Excl a) := by
+  unfold expOnIntervalBetweenNegativeOneQuarterAnd0Excl chk32
+  delta expConstantTerm expConstant1Over3
+  rcases hta with rfl | rfl <;>
+  · py_exec [exp_on_interval_between_negative_one_quarter_and_0_excl, fits32_iff, srm32_rw_ne, srm32_rw,
+      msrm32_spec_ne, msrm32_spec, rdbp_rw, mrdbp_spec, wrap32, errRel]
+    py_finish
+
+theorem expint_out (ta : Ty) (a : Int) (hta : ta = .py ∨ ta = .i32) (ha : ta = .py ∨ ta.fits a)
+    (h : ¬ (-536870912 ≤ a ∧ a < 0)) :
+    SimT errRel .i32 (exp_on_interval_between_negative_one_quarter_and_0_excl ⟨ta, a⟩)
+      (expOnIntervalBetweenNegativeOneQuarterAnd0Excl a) := by
+  unfold expOnIntervalBetweenNegativeOneQuarterAnd0Excl chk32
+  by_cases hf : Ty.fits .i32 a
+  · simp only [Ty.fits] at hf
+    rcases hta with rfl | rfl <;>
+    · py_exec [exp_on_interval_between_negative_one_quarter_and_0_excl, fits32_iff, errRel]
+      try py_finish
+  · rcases hta with rfl | rfl
+    · simp only [Ty.fits] at hf
+      py_exec [exp_on_interval_between_negative_one_quarter_and_0_excl, fits32_iff, errRel]
+      try py_finish
+    · rcases ha with h | h
+      · cases h
+      · exact absurd h hf
+
+/-- `exp_on_interval_between_negative_one_quarter_and_0_excl` on a Python-int or `np.int32` argument:
+    same outcome as the hand model, result tagged `np.int32` -/
+theorem expint_sim (ta : Ty) (a : Int) (hta : ta = .py ∨ ta = .i32) (ha : ta = .py ∨ ta.fits a) :
+    SimT errRel .i32 (exp_on_interval_between_negative_one_quarter_and_0_excl ⟨ta, a⟩)
+      (expOnIntervalBetweenNegativeOneQuarterAnd0Excl a) := by
+  by_cases h : -536870912 ≤ a ∧ a < 0
+  · exact expint_in ta a hta h.1 h.2
+  · exact expint_out ta a hta ha h
+
+/-- the model's result is the outcome of a final `np.int32(..)` cast, hence in range -/
+theorem mexpint_fits (a v : Int) (h : expOnIntervalBetweenNegativeOneQuarterAnd0Excl a = .ok v) :
+    Ty.fits .i32 v := by
+  revert h
+  unfold expOnIntervalBetweenNegativeOneQuarterAnd0Excl chk32
+  delta expConstantTerm expConstant1Over3
+  py_exec [fits32_iff, msrm32_spec_ne, msrm32_spec, mrdbp_spec, wrap32]
+  repeat' py_split1
+  all_goals
+    intro h
+    cases h <;> (simp only [Ty.fits]; omega)
+
+/-! ## `exp_on_negative_values` -/
+
+/-- one `exp_barrel_shifter` stage: same outcome as the model's stage; the result is tagged `np.int64`
+    when the multiplication happened and keeps its tag otherwise, and fits int32 -/
+theorem barrel_sim (tr : Ty) (rem r e m : Int) (htr : tr = .i32 ∨ tr = .i64)
+    (hr : tr.fits r) (hst : (e, m) ∈ expBarrelStages) :
+    ∃ tr', (tr' = .i32 ∨ tr' = .i64) ∧
+      SimT errRel tr' (exp_on_negative_values__exp_barrel_shifter ⟨.i32, rem⟩ (.py e) (.py m) ⟨tr, r⟩)
+        (expBarrelShifter rem (e, m) r) ∧
+      (Ty.fits .i32 r → ∀ v, expBarrelShifter rem (e, m) r = .ok v → Ty.fits .i32 v) := by
+  simp only [expBarrelStages, List.mem_cons, Prod.mk.injEq, List.mem_nil_iff, or_false] at hst
+  have hi := iand_two_pow rem (26 + e).toNat
+  by_cases hb : (rem / 2 ^ (26 + e).toNat) % 2 = 1
+  · refine ⟨.i64, Or.inr rfl, ?_, ?_⟩
+    · rcases hst with ⟨rfl, rfl⟩ | ⟨rfl, rfl⟩ | ⟨rfl, rfl⟩ | ⟨rfl, rfl⟩ | ⟨rfl, rfl⟩ | ⟨rfl, rfl⟩ | ⟨rfl, rfl⟩ <;>
+      rcases htr with rfl | rfl <;>
+      · simp only [Int.reduceAdd, Int.reduceToNat, Int.reducePow, Int.reduceNeg] at hb hi
+        simp only [Ty.fits] at hr
+        py_exec [exp_on_negative_values__exp_barrel_shifter, expBarrelShifter, srm32_rw_ne, msrm32_spec_ne, errRel, hi]
+        py_finish
+    · intro hr32 v
+      rcases hst with ⟨rfl, rfl⟩ | ⟨rfl, rfl⟩ | ⟨rfl, rfl⟩ | ⟨rfl, rfl⟩ | ⟨rfl, rfl⟩ | ⟨rfl, rfl⟩ | ⟨rfl, rfl⟩ <;>
+      · simp only [Int.reduceAdd, Int.reduceToNat, Int.reducePow, Int.reduceNeg] at hb
+        simp only [Ty.fits] at hr32
+        py_exec [expBarrelShifter, msrm32_spec_ne]
+        repeat' py_split1
+        all_goals
+          intro h
+          cases h
+          all_goals (simp only [Ty.fits, W32]; omega)
+  · refine ⟨tr, htr, ?_, ?_⟩
+    · rcases hst with ⟨rfl, rfl⟩ | ⟨rfl, rfl⟩ | ⟨rfl, rfl⟩ | ⟨rfl, rfl⟩ | ⟨rfl, rfl⟩ | ⟨rfl, rfl⟩ | ⟨rfl, rfl⟩ <;>
+      rcases htr with rfl | rfl <;>
+      · simp only [Int.reduceAdd, Int.reduceToNat, Int.reducePow, Int.reduceNeg] at hb hi
+        simp only [Ty.fits] at hr
+        py_exec [exp_on_negative_values__exp_barrel_shifter, expBarrelShifter, srm32_rw_ne, msrm32_spec_ne, errRel, hi]
+        py_finish
+    · intro hr32 v
+      rcases hst with ⟨rfl, rfl⟩ | ⟨rfl, rfl⟩ | ⟨rfl, rfl⟩ | ⟨rfl, rfl⟩ | ⟨rfl, rfl⟩ | ⟨rfl, rfl⟩ | ⟨rfl, rfl⟩ <;>
+      · simp only [Int.reduceAdd, Int.reduceToNat, Int.reducePow, Int.reduceNeg] at hb
+        simp only [Ty.fits] at hr32
+        py_exec [expBarrelShifter, msrm32_spec_ne]
+        repeat' py_split1
+        all_goals
+          intro h
+          cases h
+          all_goals (simp only [Ty.fits, W32]; omega)
+
+theorem fits_of_fits32 (t : Ty) (v : Int) (ht : t = .i32 ∨ t = .i64) (h : Ty.fits .i32 v) : t.fits v := by
+  rcases ht with rfl | rfl
+  · exact h
+  · simp only [Ty.fits] at h ⊢; omega
+
+/-- `exp_on_negative_values` on an int32 argument `≤ 0` -/
+theorem expneg_in (a : Int) (hf : -2147483648 ≤ a ∧ a ≤ 2147483647) (h0 : a ≤ 0) :
+    Agrees errRel (exp_on_negative_values (.py a)) (expOnNegativeValues a) := by
+  have hm := iand_mask a 24
+  simp only [Int.reducePow, Int.reduceSub] at hm
+  have hmod := Int.emod_nonneg a (by decide : (16777216:Int) ≠ 0)
+  have hmod2 := Int.emod_lt_of_pos a (by decide : (0:Int) < 16777216)
+  unfold expOnNegativeValues FpMath.rescale saturatingRoundingMultiplyByPot shiftLeft32 chk32 pow2
+  delta i32min i32max
+  -- the callee `exp_on_interval_…`: both fail, or both return `v0` (tagged np.int32, in range)
+  have hsim := expint_sim .i32 ((a % 16777216 - 16777216) * 32) (Or.inr rfl)
+    (Or.inr (by simp only [Ty.fits]; omega))
+  rcases hsim.cases with ⟨e, f, hs, hmo, hrel⟩ | ⟨v0, hs, hmo⟩
+  · py_exec [exp_on_negative_values, Gen.SrcFpMath.rescale, saturating_rounding_multiply_by_pot, shift_left32,
+      fits32_iff, hm, if_pos, if_neg, hs, hmo, expBarrelStages, List.foldlM]
+    exact hrel
+  have hv0 := mexpint_fits _ _ hmo
+  have ht0 : Ty.i32 = .i32 ∨ Ty.i32 = .i64 := Or.inl rfl
+  -- the seven barrel-shifter stages, one after the other
+  obtain ⟨t1, ht1, hsim1, hf1⟩ := barrel_sim Ty.i32 (a % 16777216 - 16777216 - a) v0 (-2) 1672461947 ht0
+    (fits_of_fits32 _ _ ht0 hv0) (by decide)
+  rcases hsim1.cases with ⟨e, f, hs1, hm1, hrel⟩ | ⟨v1, hs1, hm1⟩
+  · py_exec [exp_on_negative_values, Gen.SrcFpMath.rescale, saturating_rounding_multiply_by_pot, shift_left32,
+      fits32_iff, hm, if_pos, if_neg, hs, hmo, expBarrelStages, List.foldlM, hs1, hm1]
+    exact hrel
+  have hv1 := hf1 hv0 v1 hm1
+  obtain ⟨t2, ht2, hsim2, hf2⟩ := barrel_sim t1 (a % 16777216 - 16777216 - a) v1 (-1) 1302514674 ht1
+    (fits_of_fits32 _ _ ht1 hv1) (by decide)
+  rcases hsim2.cases with ⟨e, f, hs2, hm2, hrel⟩ | ⟨v2, hs2, hm2⟩
+  · py_exec [exp_on_negative_values, Gen.SrcFpMath.rescale, saturating_rounding_multiply_by_pot, shift_left32,
+      fits32_iff, hm, if_pos, if_neg, hs, hmo, expBarrelStages, List.foldlM, hs1, hm1, hs2, hm2]
+    exact hrel
+  have hv2 := hf2 hv1 v2 hm2
+  obtain ⟨t3, ht3, hsim3, hf3⟩ := barrel_sim t2 (a % 16777216 - 16777216 - a) v2 (0) 790015084 ht2
+    (fits_of_fits32 _ _ ht2 hv2) (by decide)
+  rcases hsim3.cases with ⟨e, f, hs3, hm3, hrel⟩ | ⟨v3, hs3, hm3⟩
+  · py_exec [exp_on_negative_values, Gen.SrcFpMath.rescale, saturating_rounding_multiply_by_pot, shift_left32,
+      fits32_iff, hm, if_pos, if_neg, hs, hmo, expBarrelStages, List.foldlM, hs1, hm1, hs2, hm2, hs3, hm3]
+    exact hrel
+  have hv3 := hf3 hv2 v3 hm3
+  obtain ⟨t4, ht4, hsim4, hf4⟩ := barrel_sim t3 (a % 16777216 - 16777216 - a) v3 (1) 290630308 ht3
+    (fits_of_fits32 _ _ ht3 hv3) (by decide)
+  rcases hsim4.cases with ⟨e, f, hs4, hm4, hrel⟩ | ⟨v4, hs4, hm4⟩
+  · py_exec [exp_on_negative_values, Gen.SrcFpMath.rescale, saturating_rounding_multiply_by_pot, shift_left32,
+      fits32_iff, hm, if_pos, if_neg, hs, hmo, expBarrelStages, List.foldlM, hs1, hm1, hs2, hm2, hs3, hm3, hs4, hm4]
+    exact hrel
+  have hv4 := hf4 hv3 v4 hm4
+  obtain ⟨t5, ht5, hsim5, hf5⟩ := barrel_sim t4 (a % 16777216 - 16777216 - a) v4 (2) 39332535 ht4
+    (fits_of_fits32 _ _ ht4 hv4) (by decide)
+  rcases hsim5.cases with ⟨e, f, hs5, hm5, hrel⟩ | ⟨v5, hs5, hm5⟩
+  · py_exec [exp_on_negative_values, Gen.SrcFpMath.rescale, saturating_rounding_multiply_by_pot, shift_left32,
+      fits32_iff, hm, if_pos, if_neg, hs, hmo, expBarrelStages, List.foldlM, hs1, hm1, hs2, hm2, hs3, hm3, hs4, hm4, hs5, hm5]
+    exact hrel
+  have hv5 := hf5 hv4 v5 hm5
+  obtain ⟨t6, ht6, hsim6, hf6⟩ := barrel_sim t5 (a % 16777216 - 16777216 - a) v5 (3) 720401 ht5
+    (fits_of_fits32 _ _ ht5 hv5) (by decide)
+  rcases hsim6.cases with ⟨e, f, hs6, hm6, hrel⟩ | ⟨v6, hs6, hm6⟩
+  · py_exec [exp_on_negative_values, Gen.SrcFpMath.rescale, saturating_rounding_multiply_by_pot, shift_left32,
+      fits32_iff, hm, if_pos, if_neg, hs, hmo, expBarrelStages, List.foldlM, hs1, hm1, hs2, hm2, hs3, hm3, hs4, hm4, hs5, hm5, hs6, hm6]
+    exact hrel
+  have hv6 := hf6 hv5 v6 hm6
+  obtain ⟨t7, ht7, hsim7, hf7⟩ := barrel_sim t6 (a % 16777216 - 16777216 - a) v6 (4) 242 ht6
+    (fits_of_fits32 _ _ ht6 hv6) (by decide)
+  rcases hsim7.cases with ⟨e, f, hs7, hm7, hrel⟩ | ⟨v7, hs7, hm7⟩
+  · py_exec [exp_on_negative_values, Gen.SrcFpMath.rescale, saturating_rounding_multiply_by_pot, shift_left32,
+      fits32_iff, hm, if_pos, if_neg, hs, hmo, expBarrelStages, List.foldlM, hs1, hm1, hs2, hm2, hs3, hm3, hs4, hm4, hs5, hm5, hs6, hm6, hs7, hm7]
+    exact hrel
+  have hv7 := hf7 hv6 v7 hm7
+  py_exec [exp_on_negative_values, Gen.SrcFpMath.rescale, saturating_rounding_multiply_by_pot, shift_left32,
+      fits32_iff, hm, if_pos, if_neg, hs, hmo, expBarrelStages, List.foldlM, hs1, hm1, hs2, hm2, hs3, hm3, hs4, hm4, hs5, hm5, hs6, hm6, hs7, hm7, errRel]
+  py_finish
 
 end VelaVerif.SrcFpMath
